@@ -12,9 +12,11 @@ documentation of `AttributeAction` over the map interface `get` / `set` / `erase
 * `frame`, `frame_items` — attributes (and sibling items) off the selector path are untouched
 * `nonconstructive_missing_fails_clean`, `nonconstructive_missing_fails` — a non-constructive action on
   a missing path fails and changes nothing
-* `constructive_creates`, `constructive_appends_item`, `constructive_creates_leaf`,
-  `push_creates_or_fails_clean` — constructive actions create the missing sequence, the next item,
-  the attribute
+* `constructive_creates`, `constructive_appends_item`, `constructive_creates_leaf` — constructive
+  actions create the missing sequence, the next item, the attribute
+* `push_creates_unsuitable_value` (witness: the shipped `Push*` gives a missing attribute a value in
+  the kind of the pushed number, which need not suit the VR — known finding), and for the proposed
+  repair `push_refines_spec_repaired`, `push_creates_or_fails_clean_repaired`, `push_repaired_on_witness`
 That a well-formed object of type-suitable values is written and read back equal in every writable
 transfer syntax is C01's theorem; here it is executed on every final object by the correspondence run.
 -/
@@ -157,23 +159,19 @@ theorem leaf_refines (dict : Nat → Option VR) (o : Obj) (hw : o.wf = true) (ta
     applyLeaf dict o tag a =
       (o.put? tag (leafSpec dict tag (o.get tag) a).1, (leafSpec dict tag (o.get tag) a).2) := by
   have hse := fun vr v => set_erase o tag vr v 0 hw
-  have push : ∀ (ext mk : Prim → Option Prim) (fb : VR),
-      pushImpl dict o tag ext mk fb =
-        (o.put? tag (pushSpec dict tag (o.get tag) ext mk fb).1,
-         (pushSpec dict tag (o.get tag) ext mk fb).2) := by
-    intro ext mk fb
+  have push : ∀ (ext : Prim → Option Prim) (fresh : Prim) (fb : VR),
+      pushImpl dict o tag ext fresh fb =
+        (o.put? tag (pushSpec dict tag (o.get tag) ext fresh fb).1,
+         (pushSpec dict tag (o.get tag) ext fresh fb).2) := by
+    intro ext fresh fb
     unfold pushImpl pushSpec
     cases hg : o.get tag with
-    | none =>
-      simp only
-      split
-      · simp [Obj.put?, erase_of_get_none o tag hg]
-      · split <;> simp [Obj.put?, erase_of_get_none o tag hg]
+    | none => simp [Obj.put?]
     | some c =>
       obtain ⟨vr, v⟩ := c
       cases v with
       | prim p =>
-        cases he : ext (normEmpty vr p) with
+        cases he : ext p with
         | some p' => simp [Obj.put?, he, hse]
         | none => simp [Obj.put?, he, hse, set_get_self o tag vr _ hg]
       | seq items => simp [Obj.put?, hse, set_get_self o tag vr _ hg]
@@ -339,17 +337,11 @@ theorem good_setVr (nvr vr : VR) (v : Val) (h : Good vr v) : Good (setVrOf nvr v
 theorem leafSpec_good (dict : Nat → Option VR) (tag : Nat) (cur : Option (VR × Val))
     (hc : ∀ vr v, cur = some (vr, v) → Good vr v) (a : Action) :
     ∀ vr v, (leafSpec dict tag cur a).1 = some (vr, v) → Good vr v := by
-  have hpush : ∀ ext mk fb vr v, (pushSpec dict tag cur ext mk fb).1 = some (vr, v) → Good vr v := by
-    intro ext mk fb vr v h
+  have hpush : ∀ ext fresh fb vr v, (pushSpec dict tag cur ext fresh fb).1 = some (vr, v) → Good vr v := by
+    intro ext fresh fb vr v h
     unfold pushSpec at h
     cases cur with
-    | none =>
-      simp only at h
-      split at h
-      · simp at h
-      · split at h
-        · simp at h; rw [← h.2]; exact good_prim _ _
-        · simp at h
+    | none => simp at h; rw [← h.2]; exact good_prim _ _
     | some c =>
       obtain ⟨vr0, v0⟩ := c
       cases v0 with
@@ -629,32 +621,11 @@ theorem nonconstructive_missing_fails (dict : Nat → Option VR) (a : Action)
 
 /-! ### constructive actions create what is missing -/
 
-/-- is the action one of the `Push*` actions -/
-def Action.isPush : Action → Bool
-  | .pushStr _ | .pushNum _ => true
-  | _ => false
-
-/-- at the leaf a constructive `Set*` action creates the attribute and succeeds -/
+/-- at the leaf a constructive action creates the attribute and succeeds -/
 theorem constructive_creates_leaf (dict : Nat → Option VR) (o : Obj) (tag : Nat) (a : Action)
-    (ha : a.constructive = true) (hp : a.isPush = false) (hg : o.get tag = none) :
+    (ha : a.constructive = true) (hg : o.get tag = none) :
     (apply dict o [] tag a).2 = none ∧ ((apply dict o [] tag a).1.get tag).isSome = true := by
-  cases a <;> simp_all [apply, applyLeaf, Action.constructive, Action.isPush, changeValue, get_set_same]
-
-/-- a `Push*` action on a missing attribute creates it with a value of the kind of its VR, or — when
-the pushed value has no form in that kind (text into a number, anything into a sequence) — fails and
-creates nothing -/
-theorem push_creates_or_fails_clean (dict : Nat → Option VR) (o : Obj) (hw : o.wf = true) (tag : Nat)
-    (a : Action) (hp : a.isPush = true) (hg : o.get tag = none) :
-    ((apply dict o [] tag a).2 = none ∧ ((apply dict o [] tag a).1.get tag).isSome = true) ∨
-    ((apply dict o [] tag a).2 ≠ none ∧ (apply dict o [] tag a).1 = o) := by
-  cases a <;> simp_all [Action.isPush]
-  all_goals
-    simp only [apply, applyLeaf, pushImpl, hg]
-    split
-    · exact Or.inr ⟨by simp, rfl⟩
-    · split
-      · exact Or.inl ⟨rfl, by simp [get_set_same]⟩
-      · exact Or.inr ⟨by simp, rfl⟩
+  cases a <;> simp_all [apply, applyLeaf, Action.constructive, changeValue, pushImpl, get_set_same]
 
 /-- a missing sequence is created (VR from the dictionary, which must allow a sequence) together
 with its first item, in which the rest of the operation takes place; it is held under VR SQ -/
@@ -677,6 +648,81 @@ theorem constructive_appends_item (dict : Nat → Option VR) (o : Obj) (t : Nat)
     (apply dict o ((t, items.length) :: rest) tag a).1.get t = some (vr, .seq (items.push inner.1)) ∧
     (apply dict o ((t, items.length) :: rest) tag a).2 = inner.2 := by
   simp [apply, hg, ha, get_set_same]
+
+/-! ### `Push*` and the kind of the created value: the shipped code and the proposed repair -/
+
+/-- **Witness (shipped code)**: `PushI16(256)` on the missing FD attribute (0018,9182) creates
+`I16 [256]` under VR FD — a value whose kind does not suit the VR; written as it is (2 bytes under
+FD) it does not read back equal. Executed on the implementation as class
+`value-type-incompatible-with-vr`. -/
+theorem push_creates_unsuitable_value :
+    let dict : Nat → Option VR := fun t => if t = 0x00189182 then some .FD else none
+    (match (apply dict .nil [] 0x00189182 (.pushNum (.i16 256))).1.get 0x00189182 with
+     | some (.FD, .prim p) => p == .i16 [256]
+     | _ => false) = true ∧
+    primSuits .FD (.i16 [256]) = false := by decide
+
+/-- `pushImplRepaired` is the map-level `pushSpecRepaired` (same refinement as for the shipped code) -/
+theorem push_refines_spec_repaired (dict : Nat → Option VR) (o : Obj) (hw : o.wf = true) (tag : Nat)
+    (ext mk : Prim → Option Prim) (fb : VR) :
+    pushImplRepaired dict o tag ext mk fb =
+      (o.put? tag (pushSpecRepaired dict tag (o.get tag) ext mk fb).1,
+       (pushSpecRepaired dict tag (o.get tag) ext mk fb).2) := by
+  have hse := fun vr v => set_erase o tag vr v 0 hw
+  unfold pushImplRepaired pushSpecRepaired
+  cases hg : o.get tag with
+  | none =>
+    simp only
+    split
+    · simp [Obj.put?, erase_of_get_none o tag hg]
+    · split <;> simp [Obj.put?, erase_of_get_none o tag hg]
+  | some c =>
+    obtain ⟨vr, v⟩ := c
+    cases v with
+    | prim p =>
+      cases he : ext (normEmpty vr p) with
+      | some p' => simp [Obj.put?, he, hse]
+      | none => simp [Obj.put?, he, hse, set_get_self o tag vr _ hg]
+    | seq items => simp [Obj.put?, hse, set_get_self o tag vr _ hg]
+    | pix b f => simp [Obj.put?, hse, set_get_self o tag vr _ hg]
+
+/-- the empty value of a VR's kind suits the VR, and extending a non-empty-kind value by a number
+keeps its kind, hence its suitability -/
+theorem typedEmpty_suits (vr : VR) (hvr : vr ≠ .DA ∧ vr ≠ .DT ∧ vr ≠ .TM) :
+    primSuits vr (typedEmpty vr) = true := by
+  cases vr <;> simp_all <;> decide
+
+theorem extendNum_suits (vr : VR) (n : Num) (p p' : Prim) (hp : p ≠ .empty) (hs : primSuits vr p = true)
+    (h : p.extendNum n = some p') : primSuits vr p' = true := by
+  cases p <;> simp_all [Prim.extendNum, primSuits] <;> (subst h; simp [primSuits, hs])
+
+/-- **Repaired `Push*` of a number on a missing attribute**: with a VR that holds numbers the
+created value suits the VR; with any other VR either it suits, or it is the pushed number itself
+under a VR without a kind of its own (OB / UN), or nothing is created and the action fails -/
+theorem push_creates_or_fails_clean_repaired (dict : Nat → Option VR) (o : Obj) (tag : Nat) (n : Num)
+    (hg : o.get tag = none)
+    (hvr : (dict tag).getD n.fallbackVr ≠ .DA ∧ (dict tag).getD n.fallbackVr ≠ .DT ∧
+           (dict tag).getD n.fallbackVr ≠ .TM) :
+    let r := pushImplRepaired dict o tag (Prim.extendNum n) (Prim.extendNum n) n.fallbackVr
+    let vr := (dict tag).getD n.fallbackVr
+    (r.2 ≠ none ∧ r.1 = o) ∨
+    (r.2 = none ∧ ∃ p', r.1.get tag = some (vr, .prim p') ∧
+      (typedEmpty vr ≠ .empty → primSuits vr p' = true)) := by
+  simp only [pushImplRepaired, hg]
+  split
+  · exact Or.inl ⟨by simp, rfl⟩
+  · cases he : (typedEmpty ((dict tag).getD n.fallbackVr)).extendNum n with
+    | none => exact Or.inl ⟨by simp, rfl⟩
+    | some p' =>
+      refine Or.inr ⟨rfl, p', get_set_same _ _ _ _, fun hne => ?_⟩
+      exact extendNum_suits _ n _ p' hne (typedEmpty_suits _ hvr) he
+
+/-- on the witness of the shipped code the repaired push creates `F64 [256]`, which suits FD -/
+theorem push_repaired_on_witness :
+    let dict : Nat → Option VR := fun t => if t = 0x00189182 then some .FD else none
+    (match (pushImplRepaired dict .nil 0x00189182 (Prim.extendNum (.i16 256)) (Prim.extendNum (.i16 256)) .SS).1.get 0x00189182 with
+     | some (.FD, .prim p) => p == .f64 [.half 512]
+     | _ => false) = true ∧ primSuits .FD (.f64 [.half 512]) = true := by decide
 
 /-! ### non-vacuity and the defect that was repaired -/
 
